@@ -5,7 +5,7 @@ func init() {
 		"Decides, on every enumerated path of every table-mutating operation and of the eviction callback, that a value which stops being current is reported exactly once atomically (inside the bucket-locked computation, with that node's key/value and the truthful cause) and exactly once deferred (one replay task, run exactly once by runTask, or one direct notification without maintenance), and that nothing is reported when the table is unchanged; the task of a writer that runs maintenance itself is replayed on every path of maintenance (C13.order) and a popped task always reaches runTask (C16.consume) - a dropped task is a lost deferred report. "+
 			"NOT decided: conservation (written = present + reported) over whole histories and races between replacement and eviction of one key beyond the per-path identity test.",
 		[]string{"hashmap.Map.Compute runs its callback exactly once under the bucket lock (C15)", "every enqueued task is replayed exactly once (C16, C05.runTask)"},
-		ruleC06Atomic, ruleC05Task, ruleC05RunTask, ruleEvict, ruleC13Order, ruleC16Consume, ruleC01Config)
+		ruleC06Atomic, ruleC05Task, ruleC05RunTask, ruleEvict, ruleC13Order, ruleC16Consume, ruleC06HandlerNil, ruleC01Config)
 	register("C09",
 		"Decides that every explicit write/compute/invalidate/eviction clears the key's in-flight load record inside the same bucket-locked computation that changes the mapping (C09.clear) and that the load installer installs or removes only on paths where, inside that computation, its record was still registered (C09.guard = the installer's decision table), so a superseded load cannot overwrite a newer write. "+
 			"The installer's own-record test is an identity test inside the in-flight table's computation (C08.getorcreate: records are removed only by pointer identity). "+
